@@ -72,9 +72,29 @@ var danglingCorpus = []string{
 	"n1:1,1:- w1:1,2:- n2:5,5:- r1:w1,w5:-",
 }
 
+// idCorpus: ids outside 0..2^40-1 (negative: editor files; >= 2^40), also id and -id side by side, id 0
+var idCorpus = []string{
+	"n-1:1,1:- n-2:1,1:- n-3:5,5:- w-10:-1,-2:- r-20:w-10:- r-21:n-3,r-20:1=1",
+	"r-21:n-3,r-20:1=1 r-20:w-10:- w-10:-1,-2:- n-3:5,5:- n-2:1,1:- n-1:1,1:-",
+	"n1099511627777:1,1:- w1099511627786:1099511627777:- r1099511627797:w1099511627786,n1099511627777:1=1",
+	"n1:1,1:- n-1:5,5:- w1:-1:1=1 w-1:1:- r1:n1,w-1:- r-1:r1,n-1:1=1",
+	"n0:1,1:- w0:0:1=1 r0:n0,w0,r0:1=1",
+	"n72057594037927937:1,1:1=1 r-1099511627777:n72057594037927937:- r5:r-1099511627777:1=1",
+}
+
+// tagCorpus: the empty tag value, a key carried twice (matching value first / not first), value listed explicitly
+var tagCorpus = [][2]string{
+	{"tags:1=", "n1:1,1:- n2:1,1:- w10:1,2:1=0"},
+	{"tags:1=0", "n1:1,1:- n2:1,1:- w10:1,2:1=0 w11:1:1=1"},
+	{"tags:1=2", "n1:1,1:1=1;1=2 n2:1,1:1=2;1=1 w10:1,2:1=1;2=2"},
+	{"tags:1=0|2", "n1:1,1:1=1;1=0 n2:1,1:1=3;1=2 n3:1,1:1=1;1=3 r1:n3:1=0;1=1"},
+	{"tags:2=;1=1", "n1:1,1:2=0 n2:1,1:1=0 n3:1,1:1=2;1=1 w1:2,3:-"},
+}
+
 type docGen struct {
-	r      *vproto.Rng
-	lo, hi int // node coordinates are integers in [lo, hi]
+	r         *vproto.Rng
+	lo, hi    int  // node coordinates are integers in [lo, hi]
+	emptyVals bool // tags with the empty value
 }
 
 // boundsTok picks a rectangle on the node grid [lo,hi]^2: its edges pass exactly through node
@@ -122,7 +142,62 @@ func (g docGen) tags(p float64) [][2]int {
 	if len(t) == 2 && r.Bool() {
 		t[0], t[1] = t[1], t[0]
 	}
+	if g.emptyVals {
+		// the wanted key with the EMPTY value (`<tag k="k1" v=""/>`, code 0): alone, before or after another value
+		// of the same key (a key may be repeated: the XML and PBF readers accept it)
+		switch r.Intn(8) {
+		case 0:
+			t = append(t, [2]int{1, 0})
+		case 1:
+			t = append([][2]int{{1, 0}}, t...)
+		case 2:
+			t = append(t, [2]int{2, 0})
+		}
+	}
 	return t
+}
+
+// remapIDs returns the document with every id (and every reference) sent through an injective map that leaves the
+// range 0..2^40-1 of "ordinary" OSM ids: negative ids (JOSM / editor files number new objects downwards from -1),
+// ids >= 2^40, >= 2^56, a mix per kind.  Dangling references are mapped as well (they stay dangling).
+func remapIDs(objs []obj, mode int) []obj {
+	f := func(k byte, id int64) int64 {
+		switch mode {
+		case 1:
+			return -id
+		case 2:
+			return 1<<40 + id
+		case 3: // per kind
+			switch k {
+			case 'n':
+				return -id
+			case 'w':
+				return 1<<40 + id
+			}
+			return 1<<56 + id
+		case 4: // odd ids negative: id and -id' coexist
+			if id%2 == 1 {
+				return -id
+			}
+			return id / 2
+		case 5:
+			return -(1 << 40) - id
+		}
+		return id
+	}
+	out := make([]obj, len(objs))
+	for i, o := range objs {
+		c := o
+		if o.kind == 'n' || o.kind == 'w' || o.kind == 'r' {
+			c.id = f(o.kind, o.id)
+		}
+		c.refs = nil
+		for _, rr := range o.refs {
+			c.refs = append(c.refs, ref{rr.kind, f(rr.kind, rr.id)})
+		}
+		out[i] = c
+	}
+	return out
 }
 
 // document of about n objects; dangling: some references point at absent ids
@@ -240,7 +315,7 @@ func gen(seed uint64, tier string) {
 	if tier == "thorough" {
 		runs, ndocs, ndang, maxObjs = 96, 400, 80, 140
 	}
-	tagKeeps := []string{"tags:1=1", "tags:1=1|2", "tags:1=", "tags:2=1;1=2"}
+	tagKeeps := []string{"tags:1=1", "tags:1=1|2", "tags:1=", "tags:2=1;1=2", "tags:1=0|2", "tags:1=2"}
 	for _, c := range corpus {
 		for _, k := range keeps {
 			fmt.Fprintf(out, "x %s %d %d | %s\n", k, runs*2, r.U64()%1000000, c)
@@ -251,9 +326,17 @@ func gen(seed uint64, tier string) {
 			fmt.Fprintf(out, "x %s %d %d | %s\n", k, runs, r.U64()%1000000, c)
 		}
 	}
-	g := docGen{r, 0, 4}
+	g := docGen{r: r, lo: 0, hi: 4}
 	for _, c := range boundsCorpus {
 		fmt.Fprintf(out, "x %s %d %d | %s\n", c[0], runs, r.U64()%1000000, c[1])
+	}
+	for _, c := range idCorpus {
+		for _, k := range keeps {
+			fmt.Fprintf(out, "x %s %d %d | %s\n", k, runs/2, r.U64()%1000000, c)
+		}
+	}
+	for _, c := range tagCorpus {
+		fmt.Fprintf(out, "x %s %d %d | %s\n", c[0], runs/2, r.U64()%1000000, c[1])
 	}
 	for i := 0; i < ndocs; i++ {
 		n := 5 + r.Intn(maxObjs-4)
@@ -265,7 +348,12 @@ func gen(seed uint64, tier string) {
 		} else {
 			g.lo, g.hi = 0, 4
 		}
+		g.emptyVals = i%4 == 2
 		objs := g.doc(n, false)
+		g.emptyVals = false
+		if i%6 == 1 {
+			objs = remapIDs(objs, 1+(i/6)%5)
+		}
 		for _, k := range []string{g.boundsTok(), tagKeeps[r.Intn(len(tagKeeps))], "all"} {
 			rn := runs
 			if k == "all" {
@@ -400,6 +488,13 @@ func gen(seed uint64, tier string) {
 		"n1:-3,-2:1=1 n2:0,0:1=1 n3:-1,4:- w1:1,2,3:1=1",
 	}
 	pk := 0
+	for _, c := range idCorpus {
+		pbfCorpus = append(pbfCorpus, c)
+	}
+	for _, c := range tagCorpus {
+		fmt.Fprintf(out, "p %d %s | %s\n", pk%4, c[0], c[1])
+		pk++
+	}
 	for _, c := range append(append([]string{}, pbfCorpus...), corpus...) {
 		for _, k := range []string{"all", "bounds:0,0,2,2", "tags:1=1", "tags:1="} {
 			fmt.Fprintf(out, "p %d %s | %s\n", pk%4, k, c)
@@ -418,7 +513,12 @@ func gen(seed uint64, tier string) {
 		} else {
 			g.lo, g.hi = 0, 4
 		}
+		g.emptyVals = i%4 == 3
 		objs := g.doc(5+r.Intn(40), i%6 == 5)
+		g.emptyVals = false
+		if i%5 == 2 {
+			objs = remapIDs(objs, 1+(i/5)%5)
+		}
 		if i%4 == 1 { // more tags: CountTags tables with several rows and ties in the totals
 			for j := range objs {
 				if objs[j].kind != 'B' && r.Chance(0.5) {
